@@ -18,6 +18,7 @@ import (
 	"github.com/openebs/jiva/app"
 	crest "github.com/openebs/jiva/controller/rest"
 	inject "github.com/openebs/jiva/error-inject"
+	rclient "github.com/openebs/jiva/replica/client"
 	jsync "github.com/openebs/jiva/sync"
 	"github.com/openebs/jiva/types"
 	"github.com/openebs/jiva/verifshim/vtime"
@@ -68,10 +69,19 @@ func installHooks() {
 	never := make(chan vtime.Time)
 	vtime.TickerHook = func(d vtime.Duration) <-chan vtime.Time {
 		if d == jsync.SnapshotDeletionInterval {
-			return never // the background cleaner's ticker is not driven in this engine
+			// the background cleaner's 60 s ticker: driven by hand (Tick events) for cleaners the harness started,
+			// never fired for the ones a rebuild task leaves behind
+			if cl := curr; cl != nil && cl.pendingCleaner >= 0 {
+				ch := make(chan vtime.Time)
+				cl.cleanerTick[cl.pendingCleaner] = ch
+				cl.pendingCleaner = -1
+				return ch
+			}
+			return never
 		}
 		return nil
 	}
+	jsync.SnapshotRetentionCount = 1 // clean as soon as there is one candidate (default 10 only delays the same code)
 }
 
 // gate parks the task goroutine until the explorer releases it.
@@ -199,6 +209,8 @@ func (cl *cluster) serveAgent(n int, w http.ResponseWriter, req *http.Request) {
 			p.exit = 0
 			cl.cnt["files_synced"]++
 		}
+	case in.ProcessType == "fold" && cl.failFold:
+		p.exit = 1 // sfold exits non-zero (disk full, I/O error)
 	case in.ProcessType == "fold":
 		src := filepath.Join(cl.nodes[n].(*RealNode).dir, in.SrcFile)
 		dst := filepath.Join(cl.nodes[n].(*RealNode).dir, in.DestFile)
@@ -359,3 +371,62 @@ func descTask(t *task) string {
 var _ = atomic.AddInt32
 var _ = app.CloneReplica
 var _ = types.RW
+
+// startCleaner starts the real background snapshot cleaner of a replica (what sync.AddReplica leaves running after a
+// replica was attached); its ticker is the harness's.
+func (cl *cluster) startCleaner(node int) {
+	rn := cl.nodes[node].(*RealNode)
+	rc, err := rclient.NewReplicaClient(addr(node))
+	if err != nil {
+		panic(err)
+	}
+	cl.pendingCleaner = node
+	go jsync.NewTask("http://"+ctlHost+":9501").InternalSnapshotCleaner(rn.srv, rc)
+	for cl.pendingCleaner >= 0 || cleanersBusy() > 0 {
+		runtime.Gosched()
+		time.Sleep(20 * time.Microsecond)
+	}
+}
+
+// cleanersBusy counts cleaner goroutines that are not parked on their ticker.
+func cleanersBusy() int {
+	buf := stackBuf
+	n := runtime.Stack(buf, true)
+	for n == len(buf) {
+		stackBuf = make([]byte, 2*len(stackBuf))
+		buf = stackBuf
+		n = runtime.Stack(buf, true)
+	}
+	busy := 0
+	for _, g := range strings.Split(string(buf[:n]), "\n\n") {
+		if !strings.Contains(g, "sync.(*Task).InternalSnapshotCleaner") {
+			continue
+		}
+		head := g[:strings.Index(g+"\n", "\n")]
+		if strings.Contains(head, "[chan receive") && strings.Contains(strings.SplitN(g, "\n", 3)[1], "InternalSnapshotCleaner") {
+			continue // parked in `for range ticker.C`
+		}
+		busy++
+	}
+	return busy
+}
+
+// tick fires one period of a replica's cleaner and waits until that iteration is over.
+func (cl *cluster) tick(node int, foldFails bool) {
+	ch := cl.cleanerTick[node]
+	if ch == nil {
+		return
+	}
+	cl.failFold = foldFails
+	ch <- time.Now()
+	deadline := time.Now().Add(30 * time.Second)
+	for cleanersBusy() > 0 {
+		if time.Now().After(deadline) {
+			cl.violate("wedged", "cleaner-wedged", "the snapshot cleaner did not finish its iteration within 30 s")
+			break
+		}
+		runtime.Gosched()
+		time.Sleep(50 * time.Microsecond)
+	}
+	cl.failFold = false
+}
